@@ -64,23 +64,26 @@ def cmd_check(args, vx):
             return False
     jobs = [(u, False) for u in units] + [(u, True) for u in units] + [(u, "findings") for u in units if has_findings(u)]
     results = {}
-    try:
-        with concurrent.futures.ThreadPoolExecutor(max_workers=8) as ex:
-            futs = {ex.submit(vx.run_verus, u, c is True, None, False, c == "findings"): (u, c) for (u, c) in jobs}
-            for f in concurrent.futures.as_completed(futs):
+    early_tool_problems = []
+    with concurrent.futures.ThreadPoolExecutor(max_workers=8) as ex:
+        futs = {ex.submit(vx.run_verus, u, c is True, None, False, c == "findings"): (u, c) for (u, c) in jobs}
+        for f in concurrent.futures.as_completed(futs):
+            try:
                 results[futs[f]] = f.result()
-    except ToolError as e:
-        print(e)
-        return 2
+            except ToolError as e:
+                if str(e) not in early_tool_problems:
+                    early_tool_problems.append(str(e))
+    # a unit that could not be generated (lost anchor, unsupported construct) is a tool failure; the other units are still used
+    units_ok = [u for u in units if (u, False) in results and (u, True) in results]
 
-    tool_problems, violations, known_hits, other_failures = [], [], [], []
+    tool_problems, violations, known_hits, other_failures = list(early_tool_problems), [], [], []
     known = load_known(vx.VERIF)
     obligations = discharged = 0
     fn_records, samples, rewrites, items_all = [], [], [], []
     smt_ms = 0
     canaries_total = canaries_failed = 0
     assumptions_scan = {}
-    for u in units:
+    for u in units_ok:
         res = results[(u, False)]
         can = results[(u, True)]
         if res.frontend_error and not any(vx.classify(d) == "obligation" for d in res.diags):
@@ -273,11 +276,11 @@ def cmd_check(args, vx):
             "trusted_base": cfg.get("trusted_base_common", []) + pc.get("trusted_base", []),
             "samples": samples or [{"note": "no clause tagged with this property in generated units"}],
             "explanation": pc.get("explanation", ""),
-            "backend": f"Verus {results[(units[0], False)].verus_version} (bundled Z3)",
+            "backend": f"Verus {results[(units_ok[0], False)].verus_version if units_ok else '?'} (bundled Z3)",
             "solver_time_ms": smt_ms,
             "functions_under_contract": under_contract,
             "verification_items": fn_records,
-            "woven_clauses": sum(results[(u, False)].gen.clauses for u in units),
+            "woven_clauses": sum(results[(u, False)].gen.clauses for u in units_ok),
             "canaries": {"woven": canaries_total, "failed_as_required": canaries_failed},
             "macro_output_validation": trie_summaries,
             "recorded_inputs_replayed_on_real_code": replayed,
